@@ -3,6 +3,8 @@ import Acra.Gen.Src.Chapter11
 import Acra.Model.Ch11
 import Acra.Gen.Src.TimeDataFormat
 import Acra.Model.Ch11TimeFmt
+import Acra.Gen.Src.Ptptime
+import Acra.Lemmas.SrcTieTime
 import Acra.Model.PES
 import Acra.Lemmas.SrcTie
 namespace Acra.Props.C15
@@ -113,5 +115,26 @@ theorem src_double_digits_to_bcd (v : Nat) (h : v ≤ 4294967295) :
   omega
 
 example : Gen.Src.TimeDataFormat.double_digits_to_bcd 59 (by decide) = 0x59 := by decide
+
+/-- `ptptime.bcdTointConvert` as written today = the model, for every non-negative argument — including termination:
+    the translated `while` loop is bounded by `a + 1` iterations (the model's fuel) and the theorem shows it stops
+    before that.  (For a negative argument the Python loop never ends: `a >> 4` stays at -1.) -/
+theorem src_bcdTointConvert (a : Nat) :
+    Gen.Src.Ptptime.bcdTointConvert a = .ok (Model.ExtraTime.bcdToInt a : Int) := by
+  unfold Gen.Src.Ptptime.bcdTointConvert Model.ExtraTime.bcdToInt
+  have h := Lemmas.SrcTieTime.bcd_loop (a + 1) a 0 0 (Nat.lt_succ_self a)
+  show (Py.whileLoop Lemmas.SrcTieTime.bcdCond Lemmas.SrcTieTime.bcdBody (Int.toNat ((a : Int) + 1))
+      ((0 : Int), (a : Int), (0 : Int)) >>= fun st => Except.ok st.1) = _
+  have hf : Int.toNat ((a : Int) + 1) = a + 1 := by omega
+  rw [hf]
+  cases hw : Py.whileLoop Lemmas.SrcTieTime.bcdCond Lemmas.SrcTieTime.bcdBody (a + 1) ((0 : Int), (a : Int), (0 : Int)) with
+  | error e => rw [show ((0 : Int), (a : Int), (0 : Int)) = (((0 : Nat) : Int), (a : Int), ((0 : Nat) : Int)) from rfl] at hw
+               rw [hw] at h; cases h
+  | ok st => rw [show ((0 : Int), (a : Int), (0 : Int)) = (((0 : Nat) : Int), (a : Int), ((0 : Nat) : Int)) from rfl] at hw
+             rw [hw] at h; exact h
+
+/-- outside the domain: a negative argument exhausts any fuel (here: none is granted) -/
+example : Gen.Src.Ptptime.bcdTointConvert (-1) = .error .fuel := by rfl
+example : Gen.Src.Ptptime.bcdTointConvert 0x1234 = .ok 1234 := by rfl
 
 end Acra.Props.C15
